@@ -434,9 +434,11 @@ func (srv *Server) ShutdownContext(ctx context.Context) error {
 		rw.SetReadDeadline(aLongTimeAgo) // Unblock reads
 	}
 
-	// The channel of the run that is being shut down: a later start of the
-	// same Server replaces srv.shutdown.
+	// The channel and the socket of the run that is being shut down: a later
+	// start of the same Server replaces srv.shutdown, and ListenAndServe
+	// stores the socket of the next run in srv.PacketConn.
 	shutdown := srv.shutdown
+	packetConn := srv.PacketConn
 
 	srv.lock.Unlock()
 
@@ -451,8 +453,8 @@ func (srv *Server) ShutdownContext(ctx context.Context) error {
 		ctxErr = ctx.Err()
 	}
 
-	if srv.PacketConn != nil {
-		srv.PacketConn.Close()
+	if packetConn != nil {
+		packetConn.Close()
 	}
 
 	return ctxErr
